@@ -490,6 +490,12 @@ class RemoteWorker(Worker, metaclass=RemoteWorkerMeta):
 
             incoming = self._ctrl_sock
             logger.debug('Waiting for a connect to the control socket from the parent')
+            ready = mp.connection.wait([incoming, self._socket])
+            if incoming not in ready:
+                # nothing is expected on the data connection at this point: if it became readable before
+                # the parent connected to the control socket, the parent is gone
+                incoming.close()
+                raise ConnectionClosedError()
             self._ctrl_sock, ctrl_peer = incoming.accept()
             set_keepalive(self._ctrl_sock, True)
             logger.details('Control sockets connected: {} <==> {}', self._ctrl_sock.getsockname(), ctrl_peer)
